@@ -316,6 +316,14 @@ impl Ctx {
         }
     }
 
+    /// Outer safety net: a case function that panics outside its own `guard`ed calls (an encoder or
+    /// converter of the code under test blowing up on a value) is a reported panic, not a dead shard.
+    fn protect(&mut self, section: &str, replay: Value, f: impl FnOnce(&mut Ctx)) {
+        if let Err(p) = guard(|| f(self)) {
+            self.viol(&format!("panic:{section}:{}", panic_class(&p)), format!("panicked in {section}: {p}"), replay);
+        }
+    }
+
     fn parse_zaddr(&mut self, s: &str, origin: &str) -> Option<ObsAddr> {
         self.observe("zaddr", s, origin).ok().flatten().map(|p| ObsAddr(p.net, p.obs))
     }
@@ -709,7 +717,7 @@ fn section_values(c: &mut Ctx, n: u64, frac: f64) {
             0 => {
                 if let Some(a) = draw(&mut runner, &strategies[(i % 3) as usize]) {
                     if let Ok(ObsAddr(_, o)) = a.convert::<ObsAddr>() {
-                        value_roundtrip(c, net, &o, "arb_address");
+                        c.protect("value", o.to_json(net), |c| value_roundtrip(c, net, &o, "arb_address"));
                     }
                 } else {
                     c.r.inconclusive("strategy-rejected");
@@ -724,13 +732,13 @@ fn section_values(c: &mut Ctx, n: u64, frac: f64) {
                     3 => Obs::P2sh(c.bytes(20)),
                     _ => Obs::Tex(c.bytes(20)),
                 };
-                value_roundtrip(c, net, &o, "boundary");
+                c.protect("value", o.to_json(net), |c| value_roundtrip(c, net, &o, "boundary"));
             }
             // hand-built containers
             _ => {
                 let kind = ["addr", "addr", "ufvk", "uivk"][c.rng.gen_range(0..4)];
                 let items = arb_items(c, kind);
-                container_case(c, kind, net, &items);
+                c.protect("container", json!({"kind": kind, "items": items_json(&items)}), |c| container_case(c, kind, net, &items));
             }
         }
     }
@@ -1433,16 +1441,19 @@ fn section_typed(c: &mut Ctx, n: u64, frac: f64) {
             c.r.inconclusive("no-default-address");
             continue;
         };
-        typed_case(c, net, &Address::Unified(ua.clone()), "derived");
+        let mut typed: Vec<Address> = vec![Address::Unified(ua.clone())];
         if let Some(s) = ua.sapling() {
-            typed_case(c, net, &Address::Sapling(*s), "derived");
+            typed.push(Address::Sapling(*s));
         }
         if let Some(t) = ua.transparent() {
-            typed_case(c, net, &Address::Transparent(*t), "derived");
+            typed.push(Address::Transparent(*t));
             if let TransparentAddress::PublicKeyHash(h) = t {
-                typed_case(c, net, &Address::Tex(*h), "derived");
-                typed_case(c, net, &Address::Transparent(TransparentAddress::ScriptHash(*h)), "derived");
+                typed.push(Address::Tex(*h));
+                typed.push(Address::Transparent(TransparentAddress::ScriptHash(*h)));
             }
+        }
+        for a in typed {
+            c.protect("typed", json!({"net": net_name(net), "seed": hexs(&seed)}), |c| typed_case(c, net, &a, "derived"));
         }
         // a UA with unknown items and valid receivers, through the string layer
         let mut items = ua_items(&ua);
@@ -1452,8 +1463,8 @@ fn section_typed(c: &mut Ctx, n: u64, frac: f64) {
             items.sort_by_key(|(t, _)| *t);
             if let Some(z) = build(net, &Obs::Unified(items.clone())) {
                 let s = z.encode();
-                match guard(|| Address::decode(&P(net), &s)) {
-                    Ok(Some(Address::Unified(u2))) if ua_items(&u2) == items && u2.encode(&P(net)) == s => {
+                match guard(|| Address::decode(&P(net), &s).map(|a| (a.encode(&P(net)), a))) {
+                    Ok(Some((re, Address::Unified(u2)))) if ua_items(&u2) == items && re == s => {
                         c.r.count("typed_unknown_items_preserved", 1);
                     }
                     other => c.viol("keys-address-unknown-item-lost", format!("{other:?} for items {items:?}"), json!({"s": clip(&s)})),
@@ -1468,13 +1479,16 @@ fn section_typed(c: &mut Ctx, n: u64, frac: f64) {
             break;
         }
         for net in NETS {
-            if let Ok(Some(a)) = guard(|| Address::decode(&P(net), &s)) {
-                let re = a.encode(&P(net));
-                let lower = c.parse_zaddr(&s, "typed-corpus");
-                if re != s || lower.as_ref().map(|l| &l.1) != Some(&obs_of_typed(&a)) {
-                    c.viol("keys-address-accepted-differs", format!("Address::decode accepted {} as {a:?} which encodes to {}", clip(&s), clip(&re)), json!({"s": clip(&s)}));
+            match guard(|| Address::decode(&P(net), &s).map(|a| (a.encode(&P(net)), a))) {
+                Ok(Some((re, a))) => {
+                    let lower = c.parse_zaddr(&s, "typed-corpus");
+                    if re != s || lower.as_ref().map(|l| &l.1) != Some(&obs_of_typed(&a)) {
+                        c.viol("keys-address-accepted-differs", format!("Address::decode accepted {} as {a:?} which encodes to {}", clip(&s), clip(&re)), json!({"s": clip(&s)}));
+                    }
+                    c.r.count("typed_decodes_of_random_payload_strings", 1);
                 }
-                c.r.count("typed_decodes_of_random_payload_strings", 1);
+                Ok(None) => {}
+                Err(p) => c.viol(&format!("panic:typed-corpus:{}", panic_class(&p)), format!("Address::decode / encode panicked on {}: {p}", clip(&s)), json!({"s": clip(&s)})),
             }
         }
     }
